@@ -45,12 +45,31 @@ BOXES = [
     _box((0, 0, 0), (1, 1, 1)),      # 6 duplicate of 0
     _box((-3, -3, -3), (-2, -2, -2)),  # 7 disjoint from everything
 ]
+FLAT_BOXES = [
+    _box((0, 0, 1), (1, 1, 1)),      # plate in the plane z=1
+    _box((2, 0, 1), (3, 1, 1)),      # disjoint plate in the same plane
+    _box((1, 1, 1), (2, 2, 1)),      # plate touching both in a corner
+    _box((0, 0, 1), (1, 0, 1)),      # segment on an edge of plate 0
+    _box((3, 3, 1), (3, 3, 1)),      # point in the same plane
+    _box((2, 0, 1), (3, 0, 1)),      # segment collinear with 3
+    _box((0, 0, 1), (3, 3, 1)),      # big plate containing all
+    _box((0, 0, 2), (1, 1, 2)),      # plate in a parallel plane
+]
+BOXSETS = {"std": BOXES, "flat": FLAT_BOXES}
+_ACTIVE = ["std"]
+
+
+def boxes():
+    return BOXSETS[_ACTIVE[0]]
+
+
 QUERIES = [
     _box((0, 0, 0), (1, 1, 1)), _box((1, 1, 1), (1, 1, 1)), _box((2, 2, 2), (3, 3, 3)),
     _box((-1, -1, -1), (0, 0, 0)), _box((-5, -5, -5), (5, 5, 5)), _box((4, 4, 4), (5, 5, 5)),
     _box((0.25, 0.25, 0.25), (0.5, 0.5, 0.5)), _box((3, 3, 3), (4, 4, 4)), _box((2, 0, 2), (2, 0, 2)),
     _box((-2, -2, -2), (-1, -1, -1)), _box((1, 0, 0), (1, 1, 1)), _box((0, 0, 1.5), (3, 3, 1.5)),
     _box((-2.5, -2.5, -2.5), (-2.5, -2.5, -2.5)), _box((1.0000001, 0, 0), (2, 1, 1)),
+    _box((0, 0, 1), (0.5, 0.5, 1)), _box((2.5, 0, 0), (2.5, 0, 3)), _box((0, 0, 1.5), (3, 3, 2.5)), _box((1.5, 0.5, 1), (1.5, 0.5, 1)),
 ]
 
 
@@ -59,6 +78,8 @@ def _ops(nb, max_batch, with_dups=True, all_perms=True, data_variants=True):
     ops = [("batch", (), "none", None, False)]
     for b in range(nb):
         ops.append(("single", (b,), "none", None, True))
+    for b, pv in ((0, "0"), (1, "''"), (0, "F")):   # falsy payloads are legal external data
+        ops.append(("single", (b,), "none", None, pv))
     for k in range(2, max_batch + 1):
         tuples = list(itertools.permutations(range(nb), k))
         if with_dups and k == 2:
@@ -85,6 +106,8 @@ def alphabet(name):
         return _ops(4, 2, all_perms=False, data_variants=False)
     if name == "red":        # depth 3
         return _ops(5, 2, all_perms=False, data_variants=False)
+    if name == "tiny4":      # depth 3
+        return [o for o in _ops(4, 2, with_dups=False, all_perms=False, data_variants=False) if o[2] != "shuffle" and o[4] in (True, False)]
     if name == "pairs8":     # depth 2
         return _ops(8, 2)
     raise ValueError(name)
@@ -108,7 +131,12 @@ def enumerate_states(tier, seed):
     for name, depth in plan:
         n = len(alphabet(name))
         for first in range(n):
-            states.append({"alphabet": name, "depth": depth, "first": first})
+            states.append({"alphabet": name, "depth": depth, "first": first, "boxes": "std"})
+    # the same searches over a family of degenerate (zero-volume, coplanar, collinear) boxes
+    for name, depth in ((("red", 2), ("tiny4", 3)) if tier == "quick" else (("full5", 2), ("red4", 3))):
+        n = len(alphabet(name))
+        for first in range(n):
+            states.append({"alphabet": name, "depth": depth, "first": first, "boxes": "flat"})
     meta = {"bound_completed": "; ".join("all histories of <= %d operations over alphabet '%s' (%d operations)" %
                                          (d, n, len(alphabet(n))) for n, d in plan),
             "exhaustive": True}
@@ -140,11 +168,19 @@ class Model:
             return
         base = self.filled
         for k, b in enumerate(bx):
-            payload = ("p", self.count + k, b) if wd else None
-            self.leaves.append((base + k, BOXES[b], payload, self.count + k))
+            payload = _payload(wd, self.count + k, b)
+            self.leaves.append((base + k, boxes()[b], payload, self.count + k))
         self.count += n
         nl = len(self.leaves)
         self.filled = 2 * nl - 1
+
+
+def _payload(wd, count, b):
+    if wd is True:
+        return ("p", count, b)
+    if wd is False:
+        return None
+    return {"0": 0, "''": "", "F": False}[wd]
 
 
 def _ovl(a, b):
@@ -154,10 +190,10 @@ def _ovl(a, b):
 def apply_impl(tree, op, count):
     kind, bx, mode, perm, wd = op
     if kind == "single":
-        tree.insert_aabb(BOXES[bx[0]].copy(), ("p", count, bx[0]))
+        tree.insert_aabb(boxes()[bx[0]].copy(), _payload(wd, count, bx[0]))
         return
-    arr = np.array([BOXES[b] for b in bx], dtype=float).reshape(len(bx), 3, 2)
-    data = [("p", count + k, b) for k, b in enumerate(bx)] if wd else None
+    arr = np.array([boxes()[b] for b in bx], dtype=float).reshape(len(bx), 3, 2)
+    data = [_payload(wd, count + k, b) for k, b in enumerate(bx)] if wd else None
     if mode == "shuffle":
         orig = np.random.shuffle
 
@@ -380,6 +416,10 @@ def explore(alpha, depth, first, do_pairs=True):
 
 
 def run_state(desc):
+    global _REF_TREES
+    if _ACTIVE[0] != desc.get("boxes", "std"):
+        _ACTIVE[0] = desc.get("boxes", "std")
+        _REF_TREES = None
     alpha = alphabet(desc["alphabet"])
     viol, c, hk, sample = explore(alpha, desc["depth"], desc["first"])
     # collapse: report at most 3 violations per signature from this shard
@@ -400,7 +440,7 @@ def run_state(desc):
 def sub_states(mode, tier):
     """Reduced exploration used for the NUMBA_BOUNDSCHECK=1 and interpreted runs."""
     alpha = alphabet("red4")
-    return [{"alphabet": "red4", "depth": 2, "first": i} for i in range(len(alpha))]
+    return [{"alphabet": "red4", "depth": 2, "first": i, "boxes": bs} for i in range(len(alpha)) for bs in ("std", "flat")]
 
 
 def finalize(ctx):
